@@ -367,12 +367,15 @@ def chunkRelLoc (par : Par) (g : GChild) : Option (Int × Int) :=
       if overlapInt (cs, ce) (g.start, g.stop) then some (max g.start cs - cs, min g.stop ce - cs) else none
   | _ => some (g.start, g.stop)
 
+/-- `a.chunk_relative_location.has_overlap(b.chunk_relative_location)` (an EmptyLocation overlaps nothing) -/
+def relOverlap (par : Par) (x y : GChild) : Bool :=
+  match chunkRelLoc par x, chunkRelLoc par y with
+  | some a, some b => overlapInt a b
+  | _, _ => false
+
 /-- adjacent pairs of the start-sorted variant list: `chunk_relative_location.has_overlap` -/
 def adjOverlap (par : Par) : List GChild → Bool
-  | x :: y :: rest =>
-      (match chunkRelLoc par x, chunkRelLoc par y with
-       | some a, some b => overlapInt a b
-       | _, _ => false) || adjOverlap par (y :: rest)
+  | x :: y :: rest => relOverlap par x y || adjOverlap par (y :: rest)
   | _ => false
 
 /-- `X.query_by_guids(ids)` of a child: `None`, or a new child with the SAME guid holding the requested
